@@ -277,3 +277,126 @@ class Word:
 
 def sym(name):
     return Word(((name, False, False),))
+
+
+# ---- (d') non-commutative polynomials: sums of matrix words -------------------------------------
+
+class NC:
+    """Sum of products of symbols: {tuple((sym, transposed), ...): coef}."""
+
+    def __init__(self, terms=None):
+        self.t = {k: v for k, v in (terms or {}).items() if v != 0}
+
+    @staticmethod
+    def sym(name):
+        return NC({((name, False),): Fraction(1)})
+
+    @staticmethod
+    def const(c):
+        return NC({(): Fraction(c)})
+
+    def __add__(self, o):
+        r = dict(self.t)
+        for k, v in o.t.items():
+            r[k] = r.get(k, 0) + v
+        return NC(r)
+
+    def __neg__(self):
+        return NC({k: -v for k, v in self.t.items()})
+
+    def __sub__(self, o):
+        return self + (-o)
+
+    def __matmul__(self, o):
+        r = {}
+        for k1, v1 in self.t.items():
+            for k2, v2 in o.t.items():
+                r[k1 + k2] = r.get(k1 + k2, 0) + v1 * v2
+        return NC(r)
+
+    def T(self):
+        return NC({tuple((s, not tr) for s, tr in reversed(k)): v for k, v in self.t.items()})
+
+    def scale(self, c):
+        return NC({k: v * c for k, v in self.t.items()})
+
+    def rewrite(self, rules):
+        """rules: {(sym, transposed): (sym2, transposed2)} applied factor-wise (e.g. D^T -> DT)."""
+        r = {}
+        for k, v in self.t.items():
+            k2 = tuple(rules.get(f, f) for f in k)
+            r[k2] = r.get(k2, 0) + v
+        return NC(r)
+
+    def __eq__(self, o):
+        return isinstance(o, NC) and self.t == o.t
+
+    def __hash__(self):
+        return hash(tuple(sorted(self.t.items())))
+
+    def __repr__(self):
+        if not self.t:
+            return "0"
+        out = []
+        for k, v in sorted(self.t.items(), key=str):
+            w = " . ".join(s + (".T" if tr else "") for s, tr in k) or "1"
+            out.append(w if v == 1 else (f"-{w}" if v == -1 else f"{v}*{w}"))
+        return " + ".join(out)
+
+
+class ToNC:
+    """Expression -> NC. `.dot`, `@`, np.matmul are products; `.T`/np.transpose transposes; `.copy()` is transparent."""
+
+    def __init__(self, env=None, symbolize=None):
+        self.env = env or {}
+        self.symbolize = symbolize
+
+    def __call__(self, n):
+        if self.symbolize is not None:
+            s = self.symbolize(n)
+            if isinstance(s, NC):
+                return s
+            if isinstance(s, str):
+                return NC.sym(s)
+        if isinstance(n, ast.Name):
+            if n.id in self.env:
+                return self(self.env[n.id]) if not isinstance(self.env[n.id], NC) else self.env[n.id]
+            return NC.sym(n.id)
+        if isinstance(n, ast.Constant) and isinstance(n.value, (int, float)) and not isinstance(n.value, bool):
+            return NC.const(Fraction(repr(n.value)) if isinstance(n.value, float) else n.value)
+        if isinstance(n, ast.UnaryOp) and isinstance(n.op, ast.USub):
+            return -self(n.operand)
+        if isinstance(n, ast.BinOp):
+            if isinstance(n.op, ast.MatMult):
+                return self(n.left) @ self(n.right)
+            if isinstance(n.op, ast.Add):
+                return self(n.left) + self(n.right)
+            if isinstance(n.op, ast.Sub):
+                return self(n.left) - self(n.right)
+            if isinstance(n.op, ast.Mult):
+                l, r = self(n.left), self(n.right)
+                if l.t.keys() == {()}:
+                    return r.scale(l.t[()])
+                if r.t.keys() == {()}:
+                    return l.scale(r.t[()])
+                return l @ r  # elementwise product of symbols treated as an opaque ordered product
+        if isinstance(n, ast.Attribute):
+            if n.attr == "T":
+                return self(n.value).T()
+            d = dotted(n)
+            if d:
+                return NC.sym(d)
+        if isinstance(n, ast.Call):
+            f = n.func
+            if isinstance(f, ast.Attribute) and f.attr == "dot" and len(n.args) == 1:
+                return self(f.value) @ self(n.args[0])
+            if isinstance(f, ast.Attribute) and f.attr in ("copy", "tocsc", "tocsr") and not n.args:
+                return self(f.value)
+            if isinstance(f, ast.Attribute) and f.attr == "transpose" and not n.args:
+                return self(f.value).T()
+            d = dotted(f)
+            if d in ("np.matmul", "np.dot") and len(n.args) == 2:
+                return self(n.args[0]) @ self(n.args[1])
+            if d in ("np.transpose",) and len(n.args) == 1:
+                return self(n.args[0]).T()
+        return NC.sym(" ".join(ast.unparse(n).split()))
